@@ -246,6 +246,28 @@ func genC11(e *emitter, tier string) {
 			e.emit(opCase("constant", "Constant", []Attr{{Name: "value", Type: "t", T: seqT(dt, s, func(i int) float64 { return float64(i % 2) })}}, []*TJ{}, nil))
 		}
 	}
+	// several Constant nodes in ONE graph (node names are optional and need not be unique), every attribute
+	// form, each read by another node; then ConstantOfShape and Cast on them
+	{
+		g := &GraphJ{Inputs: []VInfoJ{{Name: "x", Dt: "f32", Dims: []any{2}}},
+			Nodes: []NodeJ{
+				{Op: "Constant", Attrs: []Attr{{Name: "value_floats", Type: "floats", Fs: []float64{3, -2}}}, Ins: []string{}, Outs: []string{"cf"}},
+				{Op: "Constant", Attrs: []Attr{{Name: "value_ints", Type: "ints", Ints: []int64{3, 1}}}, Ins: []string{}, Outs: []string{"ci"}},
+				{Op: "Constant", Attrs: []Attr{{Name: "value", Type: "t", T: vals("i64", []int{2}, 2, 2)}}, Ins: []string{}, Outs: []string{"ct"}},
+				{Op: "Constant", Attrs: []Attr{{Name: "value_float", Type: "f", F: 5}}, Ins: []string{}, Outs: []string{"c1"}},
+				{Op: "Constant", Attrs: []Attr{{Name: "value_int", Type: "i", I: 7}}, Ins: []string{}, Outs: []string{"c2"}},
+				{Op: "Constant", Attrs: []Attr{{Name: "value", Type: "t", T: vals("f32", []int{2}, 10, 20)}}, Ins: []string{}, Outs: []string{"ct2"}},
+				{Op: "Add", Ins: []string{"x", "cf"}, Outs: []string{"y"}},
+				{Op: "ConstantOfShape", Attrs: []Attr{{Name: "value", Type: "t", T: vals("i32", []int{1}, 4)}}, Ins: []string{"ci"}, Outs: []string{"cs"}},
+				{Op: "ConstantOfShape", Ins: []string{"ct"}, Outs: []string{"cs0"}},
+				{Op: "Cast", Attrs: []Attr{{Name: "to", Type: "i", I: 1}}, Ins: []string{"ci"}, Outs: []string{"cif"}},
+				{Op: "Mul", Ins: []string{"ct2", "cf"}, Outs: []string{"m"}},
+			}, Outputs: []string{"cf", "ci", "ct", "c1", "c2", "ct2", "y", "cs", "cs0", "cif", "m"}}
+		e.emit(graphCase("constants-in-one-graph", g, []NamedT{{"x", vals("f32", []int{2}, 1, 2)}}))
+		g2 := *g
+		g2.Nodes = append([]NodeJ{g.Nodes[5], g.Nodes[1], g.Nodes[0], g.Nodes[4], g.Nodes[3], g.Nodes[2]}, g.Nodes[6:]...)
+		e.emit(graphCase("constants-in-one-graph", &g2, []NamedT{{"x", vals("f32", []int{2}, 1, 2)}}))
+	}
 	e.emit(opCase("constant-bad", "Constant", []Attr{{Name: "value_string", Type: "s", S: "x"}}, []*TJ{}, nil))
 	e.emit(opCase("constant-bad", "Constant", []Attr{{Name: "value_strings", Type: "strings", Ss: []string{"x"}}}, []*TJ{}, nil))
 	e.emit(opCase("constant-bad", "Constant", []Attr{{Name: "sparse_value", Type: "i", I: 1}}, []*TJ{}, nil))
